@@ -169,7 +169,7 @@ class NativeBackend:
     def den_x(self, cl, e): return all(cl.fn(r) == e.fn(r) for r in ALL_ROWS)
     def den_p(self, cl, p): return all(bool(cl.fn(r)) == bool(p.fn(r)) for r in ALL_ROWS)
     def i(self, n): return n
-    def emod(self, a, b): return a % b if b > 0 else 0
+    def emod(self, a, b): return a % b if b > 0 else 0  # Euclidean remainder; only positive divisors matter to the laws
     def ediv(self, a, b): return a // b if b > 0 else 0
     def add(self, a, b): return a + b
     def sub(self, a, b): return a - b
@@ -190,6 +190,8 @@ class NativeBackend:
     def subset(self, A, B): return frozenset(A) <= frozenset(B)
     def member(self, t, S): return t in S
     def eq(self, a, b): return a == b
+    def iff(self, a, b): return bool(a) == bool(b)
+    def neg(self, a): return -a
     def and_(self, *xs): return all(xs)
     def or_(self, *xs): return any(xs)
     def not_(self, x): return not x
